@@ -5,6 +5,7 @@ import DhtVerif.Model.Table
 import DhtVerif.Props.C05
 import DhtVerif.Lemmas.C06
 import DhtVerif.Props.SourceTrees
+import DhtVerif.Props.SourceTrees2
 namespace Dht
 
 /-- The events through which (id, addr) may enter: a query or a matched
@@ -288,5 +289,11 @@ theorem C06.bad_and_good_are_the_source (c : TableCfg) (now : Nat) (n : Node) :
     DExp.evalWith (nodeErrCond c n) nodeErrRet Gen.treeNodeErr = some (isBad c n) ∧
     DExp.evalWith (isGoodCond c n) (isGoodRet c now n) Gen.treeIsGood = some (isGood c now n) :=
   ⟨SourceTrees.nodeErr c n, SourceTrees.isGood c now n⟩
+
+/-- T1 by translation: `Server.IsQuestionable` in node.go (with `IsGood` and `nodeErr` read from their own
+sources) is the model's `isQuestionable`. -/
+theorem C06.isQuestionable_is_the_source (c : TableCfg) (now : Nat) (n : Node) :
+    DExp.evalWith noCond (iqRet c now n) Gen.treeIsQuestionable = some (isQuestionable c now n) :=
+  SourceTrees.isQuestionable c now n
 
 end Dht
